@@ -71,8 +71,95 @@ def check(ctx):
     ctx.guard("C10.f OWNED-FITTED-STATE", "anomaliser", lambda: owned_fitted_state(ctx))
     ctx.guard("C10.e UPDATE-IS-REFIT", "fit_predict", lambda: fit_then(ctx, det_base))
     ctx.guard("C10.a HP-FROZEN", "derived-scorers", lambda: derived_alias(ctx))
+    ctx.guard("C10.g FIT-ALWAYS-FITS", "wrappers", lambda: fit_always_fits(ctx, det_base, sc_base))
     ctx.expect_min("C10.a HP-FROZEN", sum(1 for o in ctx.obs if o.rule == "C10.a HP-FROZEN" and o.status == "HOLDS"), 15)
     ctx.expect_min("C10.b REFIT-BEFORE-EVALUATE", sum(1 for o in ctx.obs if o.rule == "C10.b REFIT-BEFORE-EVALUATE" and o.status == "HOLDS"), 6)
+
+
+def _pass_through(stmts, hit):
+    """Must-pass-through over the statement tree.  CALLED: every path that leaves this block (falling through or
+    returning) has executed a statement satisfying `hit`; OPEN: paths fall through without it, none has returned
+    without it; BAD (node): some path returns without it.  Raising paths produce no result and are vacuous."""
+    state = "OPEN"
+    for st in stmts:
+        if isinstance(st, (ast.Expr, ast.Assign, ast.AugAssign, ast.AnnAssign, ast.Return)) and hit(st):
+            return "CALLED", None
+        if isinstance(st, ast.Return):
+            return "BAD", st
+        if isinstance(st, ast.Raise):
+            return "CALLED", None
+        if isinstance(st, ast.If):
+            a, na = _pass_through(st.body, hit)
+            b, nb = _pass_through(st.orelse, hit)
+            if a == "BAD":
+                return a, na
+            if b == "BAD":
+                return b, nb
+            if a == "CALLED" and b == "CALLED":
+                return "CALLED", None
+        elif isinstance(st, (ast.For, ast.While)):
+            a, na = _pass_through(st.body + st.orelse, hit)
+            if a == "BAD":
+                return a, na
+        elif isinstance(st, ast.With):
+            a, na = _pass_through(st.body, hit)
+            if a != "OPEN":
+                return a, na
+        elif isinstance(st, ast.Try):
+            a, na = _pass_through(st.body + st.orelse, hit)
+            if a == "BAD":
+                return a, na
+            hs = [_pass_through(h.body, hit) for h in st.handlers]
+            for h, nh in hs:
+                if h == "BAD":
+                    return h, nh
+            f, nf_ = _pass_through(st.finalbody, hit)
+            if f != "OPEN":
+                return f, nf_
+            if a == "CALLED" and all(h == "CALLED" for h, _ in hs):
+                return "CALLED", None
+    return state, None
+
+
+def fit_always_fits(ctx, det_base, sc_base):
+    """The public fit of both base classes stores the data it was given and runs the subclass's `_fit` on EVERY path
+    that returns: no shortcut (same object as last time, already fitted, cached digest) leaves the state of an earlier
+    fit in place.  The object identity / a cheap digest of the argument says nothing about its contents."""
+    rule = "C10.g FIT-ALWAYS-FITS"
+    for cls in (det_base, sc_base):
+        f = cls.methods.get("fit")
+        if f is None:
+            ctx.undecided(rule, f"{cls.name}.fit", cls.module.relpath, "the base class has no fit method")
+            continue
+        me = self_name(f)
+        xarg = f.params[1] if len(f.params) > 1 else "X"
+
+        def calls_fit(st, me=me):
+            for x in ast.walk(st):
+                if isinstance(x, ast.Call) and isinstance(x.func, ast.Attribute) and isinstance(x.func.value, ast.Name) and x.func.value.id == me and x.func.attr == "_fit":
+                    # not inside a conditional expression / short-circuit / comprehension
+                    return not any(isinstance(y, (ast.IfExp, ast.BoolOp, ast.ListComp, ast.GeneratorExp, ast.Lambda)) and any(z is x for z in ast.walk(y)) for y in ast.walk(st))
+            return False
+
+        def stores_x(st, me=me):
+            if isinstance(st, ast.Assign):
+                return any(isinstance(t, ast.Attribute) and isinstance(t.value, ast.Name) and t.value.id == me and t.attr == "_X" for t in st.targets)
+            return False
+
+        def marks_fitted(st, me=me):
+            if isinstance(st, ast.Assign) and isinstance(st.value, ast.Constant) and st.value.value is True:
+                return any(isinstance(t, ast.Attribute) and isinstance(t.value, ast.Name) and t.value.id == me and t.attr == "_is_fitted" for t in st.targets)
+            return False
+
+        for what, hit, txt in (("_fit", calls_fit, "runs self._fit"), ("_X", stores_x, "stores the data in self._X"), ("_is_fitted", marks_fitted, "sets self._is_fitted = True")):
+            st, node = _pass_through(f.node.body, hit)
+            ctx.check(st == "CALLED", rule, f"{cls.name}.fit|{what}", f.loc(node) if node is not None else f.loc(), f"every returning path of {cls.name}.fit {txt}: a second fit can never leave the state of the first in place", found=("a path returns before it: " + norm_src(node)) if node is not None else ("no such statement on the fall-through path" if st != "CALLED" else "on every path"))
+        # the data handed to _fit are the argument (after normalisation), not the stored attribute of an earlier call
+        for x in ast.walk(f.node):
+            if isinstance(x, ast.Call) and isinstance(x.func, ast.Attribute) and x.func.attr == "_fit" and isinstance(x.func.value, ast.Name) and x.func.value.id == me:
+                a0 = x.args[0] if x.args else next((k.value for k in x.keywords if k.arg == "X"), None)
+                ok = isinstance(a0, ast.Name) and a0.id == xarg or (isinstance(a0, ast.Attribute) and a0.attr == "_X" and _pass_through(f.node.body, stores_x)[0] == "CALLED")
+                ctx.check(ok, rule, f"{cls.name}.fit|_fit-argument", f.loc(x), "self._fit receives the (normalised) argument of this call", found=norm_src(x))
 
 
 def fit_then(ctx, det_base):
@@ -448,6 +535,15 @@ def check_refit_and_mutation(ctx):
                         n_ev += 1
                         if e.data["fitted_on"] != "[X]/[1]":
                             bad.setdefault((e.loc(), e.data["obj"].key, e.data["fitted_on"]), e)
+            n_ms = 0
+            seen_ms = set()
+            for p in paths:
+                for e in p.events:
+                    if e.kind == "scorer_min_size":
+                        n_ms += 1
+                        if e.data["fitted_on"] != "[X]/[1]" and (e.loc(), e.data["obj"].key) not in seen_ms:
+                            seen_ms.add((e.loc(), e.data["obj"].key))
+                            ctx.violation("C10.b REFIT-BEFORE-EVALUATE", f"{drv.name}|{e.data['obj'].key}|min_size", e.loc(), f"the minimum size of scorer '{e.data['obj'].key}' is read before the scorer has been fitted on the current input: for data-dependent sizes (p + 1 of a covariance cost) the value is that of whatever it was fitted on before", found=f"fitted on {e.data['fitted_on']}", expected="fit(X) of the same object dominates the read")
             for (loc, ok, fo), e in bad.items():
                 ctx.violation("C10.b REFIT-BEFORE-EVALUATE", f"{drv.name}|{ok}", loc, f"scorer '{ok}' is evaluated without having been fitted on the current input on this path: the result depends on whatever it was fitted on before (earlier calls, other detectors sharing it)", found=f"fitted on {fo}", expected="fit(X) of the same object dominates evaluate")
             if not bad:
